@@ -2128,6 +2128,69 @@ def run(ctx: Context):
             return isinstance(d, ast.Call) and call_tail(d) == "join"
         transmits(sfp, sdmf_data, "SDMF remote write")
 
+    # ---- 18. a ranged read is started for the range that was asked for ---------------------------------------
+    with ctx.rule("C09.18", "R6", "Retrieve.download(consumer, offset, size) starts the download of exactly "
+                  "[offset, offset + size) (size=None: to the end of the file) and _start_download records that range "
+                  "before the segment range is computed; decided by evaluating both over boundary reads",
+                  expected=2) as r:
+        _need("the segment size of C09.8", S3)
+        S = S3
+        dl = idx.func(RET + ".download")
+        sd = idx.func(RET + "._start_download")
+        dps = first_positional_params(dl)          # consumer, offset, size
+        sps = first_positional_params(sd)
+        if len(dps) < 3 or len(sps) < 3:
+            raise AnchorVanished("Retrieve.download(consumer, offset, size) / _start_download(consumer, offset, size) changed")
+        starts = calls_in_func(dl, "_start_download")
+        setups = calls_in_func(sd, "_setup_encoding_parameters")
+        if not starts or not setups:
+            raise AnchorVanished("download -> _start_download -> _setup_encoding_parameters")
+        r.site(dl, starts[0], "range handed to _start_download")
+        r.site(sd, setups[0], "range recorded for the segment arithmetic")
+        pts = _boundary_points(S)
+        bad, runs = None, 0
+        for D in [x for x in pts if x >= 1][::2] + [1, 2]:
+            for off in [x for x in pts if x < D][::2] + [D - 1]:
+                for size in (None, 1, 2, D - off):
+                    eff = D - off if size is None else size
+                    if eff < 1 or off + eff > D or bad:
+                        continue
+                    what = "read(offset=%d, size=%s) of a %d-byte file" % (off, size, D)
+                    sim = _Sim(idx, observe={"_start_download", "_done"})
+                    heap = {"self": {"_verify": False, "_data_length": D}, "consumer": {}}
+                    outs = sim.run(dl, {"self": _Ref("self"), dps[0]: _Ref("consumer"), dps[1]: off, dps[2]: size}, heap)
+                    runs += 1
+                    got = [(call_tail(c), a, k) for (_f, c, a, k) in sim.seen]
+                    if len(outs) != 1:
+                        bad = (dl, starts[0], "%s: download %s" % (what, "raises" if not outs else "could not be evaluated"))
+                    elif [g[0] for g in got] != ["_start_download"]:
+                        bad = (dl, starts[0], "%s: download calls %s; a read of %d byte(s) must be started, not finished "
+                               "at once" % (what, [g[0] for g in got] or "nothing", eff))
+                    else:
+                        a, k = got[0][1], got[0][2]
+                        vals = dict(zip(sps, a))
+                        vals.update(k)
+                        if (vals.get(sps[1]), vals.get(sps[2])) != (off, eff) or vals.get(sps[0]) != _Ref("consumer"):
+                            bad = (dl, starts[0], "%s: the download is started for offset=%s size=%s, the caller asked "
+                                   "for [%d, %d)" % (what, vals.get(sps[1]), vals.get(sps[2]), off, off + eff))
+                    if bad:
+                        continue
+                    sim = _Sim(idx, observe={"_setup_encoding_parameters", "_setup_download", "loop"})
+                    heap = {"self": {"_data_length": D}, "consumer": {}}
+                    outs = sim.run(sd, {"self": _Ref("self"), sps[0]: _Ref("consumer"), sps[1]: off, sps[2]: eff}, heap)
+                    runs += 1
+                    snap = [h["self"] for ((_f, c, _a, _k), h) in zip(sim.seen, sim.seen_heap)
+                            if call_tail(c) == "_setup_encoding_parameters"]
+                    if len(outs) != 1 or len(snap) != 1:
+                        bad = (sd, setups[0], "%s: _start_download %s" % (what, "raises" if not outs else
+                                                                           "computes the segment range %d times" % len(snap)))
+                    elif (snap[0].get("_offset", UNK), snap[0].get("_read_length", UNK)) != (off, eff):
+                        bad = (sd, setups[0], "%s: the segment range is computed for offset=%s, length=%s" % (
+                            what, snap[0].get("_offset", UNK), snap[0].get("_read_length", UNK)))
+        r.count(runs)
+        if bad:
+            r.violation(bad[0], bad[0].loc(bad[1]), bad[2])
+
 
 # ---- which component of a nested answer structure an expression is (flow-insensitive shape inference) ----
 # shapes: "shnum" / "block" / "salt" (atoms), ("tuple", (shapes..)), ("list", shape), ("dict", key shape, value shape),
@@ -2379,69 +2442,6 @@ def _not_a_deferred(fn, fnorm, node, v):
                 return None
         return "%s, which is not a Deferred created for this operation" % pth
     return src(fn, v)
-
-    # ---- 18. a ranged read is started for the range that was asked for ---------------------------------------
-    with ctx.rule("C09.18", "R6", "Retrieve.download(consumer, offset, size) starts the download of exactly "
-                  "[offset, offset + size) (size=None: to the end of the file) and _start_download records that range "
-                  "before the segment range is computed; decided by evaluating both over boundary reads",
-                  expected=2) as r:
-        _need("the segment size of C09.8", S3)
-        S = S3
-        dl = idx.func(RET + ".download")
-        sd = idx.func(RET + "._start_download")
-        dps = first_positional_params(dl)          # consumer, offset, size
-        sps = first_positional_params(sd)
-        if len(dps) < 3 or len(sps) < 3:
-            raise AnchorVanished("Retrieve.download(consumer, offset, size) / _start_download(consumer, offset, size) changed")
-        starts = calls_in_func(dl, "_start_download")
-        setups = calls_in_func(sd, "_setup_encoding_parameters")
-        if not starts or not setups:
-            raise AnchorVanished("download -> _start_download -> _setup_encoding_parameters")
-        r.site(dl, starts[0], "range handed to _start_download")
-        r.site(sd, setups[0], "range recorded for the segment arithmetic")
-        pts = _boundary_points(S)
-        bad, runs = None, 0
-        for D in [x for x in pts if x >= 1][::2] + [1, 2]:
-            for off in [x for x in pts if x < D][::2] + [D - 1]:
-                for size in (None, 1, 2, D - off):
-                    eff = D - off if size is None else size
-                    if eff < 1 or off + eff > D or bad:
-                        continue
-                    what = "read(offset=%d, size=%s) of a %d-byte file" % (off, size, D)
-                    sim = _Sim(idx, observe={"_start_download", "_done"})
-                    heap = {"self": {"_verify": False, "_data_length": D}, "consumer": {}}
-                    outs = sim.run(dl, {"self": _Ref("self"), dps[0]: _Ref("consumer"), dps[1]: off, dps[2]: size}, heap)
-                    runs += 1
-                    got = [(call_tail(c), a, k) for (_f, c, a, k) in sim.seen]
-                    if len(outs) != 1:
-                        bad = (dl, starts[0], "%s: download %s" % (what, "raises" if not outs else "could not be evaluated"))
-                    elif [g[0] for g in got] != ["_start_download"]:
-                        bad = (dl, starts[0], "%s: download calls %s; a read of %d byte(s) must be started, not finished "
-                               "at once" % (what, [g[0] for g in got] or "nothing", eff))
-                    else:
-                        a, k = got[0][1], got[0][2]
-                        vals = dict(zip(sps, a))
-                        vals.update(k)
-                        if (vals.get(sps[1]), vals.get(sps[2])) != (off, eff) or vals.get(sps[0]) != _Ref("consumer"):
-                            bad = (dl, starts[0], "%s: the download is started for offset=%s size=%s, the caller asked "
-                                   "for [%d, %d)" % (what, vals.get(sps[1]), vals.get(sps[2]), off, off + eff))
-                    if bad:
-                        continue
-                    sim = _Sim(idx, observe={"_setup_encoding_parameters", "_setup_download", "loop"})
-                    heap = {"self": {"_data_length": D}, "consumer": {}}
-                    outs = sim.run(sd, {"self": _Ref("self"), sps[0]: _Ref("consumer"), sps[1]: off, sps[2]: eff}, heap)
-                    runs += 1
-                    snap = [h["self"] for ((_f, c, _a, _k), h) in zip(sim.seen, sim.seen_heap)
-                            if call_tail(c) == "_setup_encoding_parameters"]
-                    if len(outs) != 1 or len(snap) != 1:
-                        bad = (sd, setups[0], "%s: _start_download %s" % (what, "raises" if not outs else
-                                                                           "computes the segment range %d times" % len(snap)))
-                    elif (snap[0].get("_offset", UNK), snap[0].get("_read_length", UNK)) != (off, eff):
-                        bad = (sd, setups[0], "%s: the segment range is computed for offset=%s, length=%s" % (
-                            what, snap[0].get("_offset", UNK), snap[0].get("_read_length", UNK)))
-        r.count(runs)
-        if bad:
-            r.violation(bad[0], bad[0].loc(bad[1]), bad[2])
 
 
 def _gathered(fn, node, e, role):
